@@ -109,22 +109,6 @@ func vfH_C20_glue() {
 		c1.rerr = errors.New("read failed")
 	}
 	l := NewListener(&vfRLListener{conns: []net.Conn{c1, c2}}, R, W)
-
-	// R > 0 <=> a limiter with rate R throttles what the proxy writes to clients; W likewise for reads
-	var tx, rx *rate.Limiter
-	for _, li := range vfLimiters {
-		vfrt.Assert(li.burst >= defaultMaxBurstSize, "glue/burst-at-least-the-biggest-request")
-		if li.l == l.txLimiter {
-			vfrt.Assert(li.rate == R, "glue/read-limit-is-the-rate-of-the-client-bound-limiter")
-		}
-		if li.l == l.rxLimiter {
-			vfrt.Assert(li.rate == W, "glue/write-limit-is-the-rate-of-the-client-sent-limiter")
-		}
-	}
-	tx, rx = l.txLimiter, l.rxLimiter
-	vfrt.Assert((tx != nil) == (R > 0), "glue/read-limit-throttles-iff-positive")
-	vfrt.Assert((rx != nil) == (W > 0), "glue/write-limit-throttles-iff-positive")
-	vfrt.Assert(tx == nil || rx == nil || tx != rx, "glue/one-limiter-per-direction")
 	switch {
 	case R > 0 && W > 0:
 		vfrt.Reach("limit-both")
@@ -139,50 +123,70 @@ func vfH_C20_glue() {
 	a1, err := l.Accept()
 	vfrt.Assert(err == nil && a1 != nil, "glue/accept")
 	a2, _ := l.Accept()
-	// transfers: data, n and err pass through unchanged; each byte count is charged once, after the transfer, to its own direction
+	// The checks below look only at what the listener does (which limiter each transfer is charged to), not at how
+	// it stores its limiters. Transfers: data, n and err pass through unchanged; each byte count is charged once,
+	// after the transfer, to the limiter of its own direction.
 	buf := make([]byte, 4)
+	mark := len(vfCharges)
 	n, rerr := a1.Read(buf)
+	rx1 := vfCharges[mark:]
 	vfrt.Assert(n == c1.rn && rerr == c1.rerr, "glue/read-result-passed-through")
 	for i := 0; i < n; i++ {
 		vfrt.Assert(buf[i] == c1.data[i], "glue/read-data-unchanged")
 	}
 	out := vfrt.Bytes("tx-data", 4)
+	mark = len(vfCharges)
 	wn, _ := a1.Write(out)
+	tx1 := vfCharges[mark:]
 	vfrt.Assert(wn == c1.wn, "glue/write-result-passed-through")
 	vfrt.Assert(len(c1.wrote) == wn, "glue/write-data-forwarded")
 	for i := 0; i < wn; i++ {
 		vfrt.Assert(c1.wrote[i] == out[i], "glue/write-data-unchanged")
 	}
+	mark = len(vfCharges)
 	a2.Read(buf)
+	rx2 := vfCharges[mark:]
+	mark = len(vfCharges)
 	a2.Write([]byte{9, 9})
-	// ledger
-	wantRx, wantTx := 0, 0
-	if rx != nil {
-		if n > 0 {
-			wantRx++
+	tx2 := vfCharges[mark:]
+
+	info := func(l *rate.Limiter) (vfLimiterInfo, bool) {
+		for _, li := range vfLimiters {
+			if li.l == l {
+				return li, true
+			}
 		}
-		wantRx++ // second connection read 2 bytes
+		return vfLimiterInfo{}, false
 	}
-	if tx != nil {
-		if wn > 0 {
-			wantTx++
+	// direction proxy -> client (what clients *read*): throttled iff R > 0, by a limiter of rate R
+	check := func(charges []vfCharge, moved int, limit int64, dir string) *rate.Limiter {
+		if limit <= 0 || moved == 0 {
+			vfrt.Assert(len(charges) == 0, "glue/"+dir+"-not-throttled-without-a-positive-limit-or-without-bytes")
+			return nil
 		}
-		wantTx++
-	}
-	gotRx, gotTx := 0, 0
-	for _, ch := range vfCharges {
-		vfrt.Assert(ch.n > 0, "glue/only-positive-amounts-charged")
-		switch ch.l {
-		case rx:
-			gotRx++
-		case tx:
-			gotTx++
-		default:
-			vfrt.Assert(false, "glue/charged-to-a-listener-limiter")
+		vfrt.Assert(len(charges) == 1, "glue/"+dir+"-transfer-charged-exactly-once")
+		if len(charges) != 1 {
+			return nil
 		}
+		vfrt.Assert(charges[0].n == moved, "glue/"+dir+"-charged-with-the-bytes-moved")
+		li, ok := info(charges[0].l)
+		vfrt.Assert(ok, "glue/"+dir+"-charged-to-a-limiter-built-by-the-listener")
+		vfrt.Assert(li.rate == limit, "glue/"+dir+"-limiter-has-the-configured-rate")
+		vfrt.Assert(li.burst >= defaultMaxBurstSize, "glue/burst-at-least-the-biggest-request")
+		return charges[0].l
 	}
-	vfrt.Assert(gotRx == wantRx && gotTx == wantTx, "glue/each-transfer-charged-once-to-its-direction-shared-by-all-connections")
-	if rx != nil && n > 0 {
-		vfrt.Assert(vfCharges[0].l == rx && vfCharges[0].n == n, "glue/read-charged-with-the-bytes-read")
+	lt1 := check(tx1, wn, R, "client-bound")
+	lt2 := check(tx2, 2, R, "client-bound")
+	lr1 := check(rx1, n, W, "client-sent")
+	lr2 := check(rx2, 2, W, "client-sent")
+	// one bucket per direction, shared by all connections of the listener
+	if lt1 != nil && lt2 != nil {
+		vfrt.Assert(lt1 == lt2, "glue/client-bound-limiter-shared-by-all-connections")
+	}
+	if lr1 != nil && lr2 != nil {
+		vfrt.Assert(lr1 == lr2, "glue/client-sent-limiter-shared-by-all-connections")
+	}
+	if lt2 != nil && lr2 != nil {
+		vfrt.Assert(lt2 != lr2, "glue/one-limiter-per-direction")
 	}
 }
